@@ -17,6 +17,7 @@ def _worker(args):
     mv = {n: (n, c, f) for n, c, f in lea_run.mode_variants(fx)}
     name, ctor, fields = mv[mode_name]
     I = lea.Interp(fx, budget=400000)
+    I.mode_domains = lea_run.mode_field_domains(fx)
     R = lea_rules.Rules(fx, I)
     I.checkers.append(R.check_segment)
     top = lea_run.symbolic_mode(name, ctor, fields)
@@ -45,6 +46,59 @@ def _worker(args):
     }
 
 
+def _finalize_worker(args):
+    """Paths of Lexer::finalize_lexing for every mode left on top of the stack at end of input."""
+    fact_path, = args
+    t0 = time.time()
+    fx = F.Facts(fact_path)
+    from . import lea_prims
+    obs = {}
+    counts = {}
+    unan = []
+    npaths = 0
+    stats = {"activations": 0, "segments": 0, "pruned": 0, "paths_before_prune": 0}
+    err = None
+    for name, ctor, fields in lea_run.mode_variants(fx):
+        I = lea.Interp(fx, budget=400000)
+        I.mode_domains = lea_run.mode_field_domains(fx)
+        R = lea_rules.Rules(fx, I)
+        I.checkers.append(R.check_segment)
+        top = lea_run.symbolic_mode(name, ctor, fields)
+        st = lea_run.base_state([top], ckpt="none", default_bottom=(name == "Default"))
+        lea_run.seed_mode_facts(fx, st, top)
+        lea_prims.set_eof(st, "main", 0, True)
+        try:
+            outs = I.run_fn("Lexer::finalize_lexing", st, [lea.LEXER])
+        except (lea.Unanalysed, lea.Budget) as ex:
+            err = "%s: %s" % (type(ex).__name__, ex)
+            continue
+        npaths += len(outs)
+        po = lea_rules.finalize_rules(fx, I, R, name, outs)
+        for o in list(I.obs.values()) + list(po.values()):
+            k = (o["rule"], o["key"])
+            if k not in obs:
+                obs[k] = o
+            else:
+                obs[k]["n"] += o.get("n", 1)
+                if obs[k]["ok"] and not o["ok"]:
+                    obs[k].update(ok=False, site=o["site"], detail=o["detail"])
+        for r, ms in R.counts.items():
+            for m, v in ms.items():
+                counts.setdefault(r, {}).setdefault(m, set()).update(v)
+        unan += I.unanalysed
+        for k2 in stats:
+            stats[k2] += I.stats[k2]
+    return {"mode": "<finalize>", "ckpt": "none", "paths": npaths, "wall": round(time.time() - t0, 2), "error": err,
+            "unanalysed": unan, "stats": stats, "obs": list(obs.values()),
+            "counts": {r: {m: sorted(v) for m, v in ms.items()} for r, ms in counts.items()}}
+
+
+def _dispatch(t):
+    if t[1] == "<finalize>":
+        return _finalize_worker((t[0],))
+    return _worker(t)
+
+
 def compute(fact_path, jobs=None):
     fx = F.Facts(fact_path)
     tasks = []
@@ -52,10 +106,11 @@ def compute(fact_path, jobs=None):
         tasks.append((fact_path, name, lea_run.OWNER_MODES.get(name, "none")))
     # heavy modes first
     order = {"MacroEval": 0, "Default": 1, "StringExpr": 2}
+    tasks.append((fact_path, "<finalize>", "none"))
     tasks.sort(key=lambda t: order.get(t[1], 9))
     t0 = time.time()
     with multiprocessing.Pool(jobs or min(16, len(tasks))) as pool:
-        results = pool.map(_worker, tasks, chunksize=1)
+        results = pool.map(_dispatch, tasks, chunksize=1)
     merged = {}
     counts = {}
     for r in results:
